@@ -226,6 +226,16 @@ class ScriptedExecutor(P.ProcessExecutor):
             SCRIPT.after_drain = _after_drain
         res = super().wait(futures, timeout_seconds=0.005)
         SCRIPT.after_drain = None
+        # what wait() hands back: every future it was asked about that is done is among the done ones
+        try:
+            done_list = list(res[0])
+            withheld = [self._fid(f) for f in futures if f.done and not any(f is d for d in done_list)]
+            SCRIPT.last_done_count = len(done_list)
+            if withheld:
+                SCRIPT.violations.append(('done-not-reported', f'futures {withheld} are finished, but wait() does not report them as done (it reported {len(done_list)}): '
+                                                               'their tasks\' dependents and slots stay blocked until something else finishes'))
+        except (TypeError, IndexError, AttributeError):
+            SCRIPT.last_done_count = None
         obs = self._obs()
         obs['alive'] += len(late)        # it was alive when this wait() looked
         # C11/C05: every worker that was dead when wait() began has been noticed and its slot freed
